@@ -4,4 +4,5 @@ From TK Require Import Mat_Sums Mat_Core Mat_Qc Pencil_Model Pencil_Spec.
 (* the functions the theorems of Properties_C10.v are about, at the instance Qc *)
 Definition run_construct_qc := @run_construct Qc QcOps.
 Definition seen_tables_qc := @seen_tables Qc QcOps.
-Extraction "c10_model.ml" run_construct_qc spec_construct_b ref_pencil seen_tables_qc Q2Qc.
+Definition run_project_qc := @run_project Qc QcOps.
+Extraction "c10_model.ml" run_construct_qc run_project_qc spec_construct_b ref_pencil seen_tables_qc Q2Qc.
